@@ -1133,11 +1133,17 @@ fn append_compiled_clause(
                     // code. (clause_start - 2 is that location only for the
                     // first clause of the block, and the first clause of a
                     // dynamic predicate's block may have been retracted.)
+                    let outer_choice_loc = if skeleton.core.is_dynamic {
+                        find_dynamic_outer_choice_instr(code, index_loc)
+                    } else {
+                        index_loc - 1
+                    };
+
                     if lower_bound == 0 {
-                        code_ptr_opt = Some(index_loc - 1);
+                        code_ptr_opt = Some(outer_choice_loc);
                     }
 
-                    find_outer_choice_instr(code, index_loc - 1)
+                    find_outer_choice_instr(code, outer_choice_loc)
                 }
                 None => {
                     if lower_bound == 0 {
